@@ -33,6 +33,9 @@ type parked struct {
 	ch   chan struct{}
 }
 
+// MaxEvents bounds the events recorded per session.
+const MaxEvents = 20000
+
 // Mode of the scheduler.
 type Mode int
 
@@ -59,6 +62,7 @@ type Sched struct {
 	// classification of messages is supplied by the driver
 	Classify  func(point string, kv []any) (key string, ev map[string]any, role string)
 	recording bool
+	Overflow  bool
 	selfG     map[int64]bool // scheduler/driver goroutines excluded from settle detection
 }
 
@@ -138,6 +142,10 @@ func (s *Sched) Emit(g int64, point string, kv map[string]any) {
 	s.mu.Lock()
 	defer s.mu.Unlock()
 	if !s.recording {
+		return
+	}
+	if len(s.events) >= MaxEvents {
+		s.Overflow = true // a session that floods (livelock) is cut off: the driver reports it as stuck
 		return
 	}
 	s.seq++
